@@ -125,4 +125,46 @@ theorem PolyPts_not_in_hole {q : Poly} (hv : polyValid q = true) {h : List Pt} (
         cases this
   · exact Or.inr (h2 h hh)
 
+/-! ### what the distance theorems use of a polygon -/
+
+/-- The facts about a polygon that the areal distance theorems rest on: closed rings, `coordinate_position`
+= the specification's `locate`, every point of the polygon within the closed shell ring and none strictly
+inside a hole. Consequences of OGC validity (`PolyOk_of_valid`); for a polygon without holes a closed
+exterior ring is enough (`PolyOk_of_noholes`: Rect / Triangle through `to_polygon`, degenerate or not). -/
+structure PolyOk (q : Poly) : Prop where
+  ok : RingsOK q
+  pos : ∀ p, coordPos (.polygon q) p = locate (.polygon q) p
+  shell : ∀ y, PolyPts q y → LsPts q.ext y ∨ windingE (EPt.ofPt y) q.ext ≠ 0
+  hole : ∀ h ∈ q.ints, ∀ y, PolyPts q y → LsPts h y ∨ windingE (EPt.ofPt y) h = 0
+
+theorem PolyOk_of_valid {q : Poly} (hv : polyValid q = true) : PolyOk q :=
+  ⟨RingsOK_of_valid hv, fun p => coordPos_polygon_valid_full q p hv, fun _ hy => PolyPts_in_shell hv hy,
+    fun _ hh _ hy => PolyPts_not_in_hole hv hh hy⟩
+
+theorem PolyOk_of_noholes {q : Poly} (hi : q.ints = []) (he : Geo.Proofs.Loc.RingOK q.ext) : PolyOk q := by
+  have hok : RingsOK q := by
+    intro r hr
+    rw [hi] at hr
+    rw [List.mem_singleton.mp hr]; exact he
+  refine ⟨hok, fun p => ?_, fun y hy => ?_, fun h hh => by rw [hi] at hh; cases hh⟩
+  · apply Geo.Proofs.Loc.coordPos_polygon_eq_locate_at q p he
+    · intro h hh; rw [hi] at hh; cases hh
+    · intro h hh; rw [hi] at hh; cases hh
+    · intro h hh; rw [hi] at hh; cases hh
+  · rcases (PolyPts_iff hok y).mp hy with ⟨r, hr, hon⟩ | ⟨h1, _⟩
+    · rw [hi] at hr
+      rw [List.mem_singleton.mp hr] at hon
+      exact Or.inl hon
+    · exact Or.inr h1
+
+theorem dRectPoly_PolyOk (mn mx : Pt) : PolyOk (dRectPoly mn mx) :=
+  PolyOk_of_noholes rfl ⟨by simp [dRectPoly, SM.rectToPolygon], by simp [dRectPoly, SM.rectToPolygon]⟩
+
+theorem dTriPoly_PolyOk (a b c : Pt) : PolyOk (dTriPoly a b c) := by
+  apply PolyOk_of_noholes rfl
+  simp only [dTriPoly, SM.triangleToPolygon, SM.close, SM.isClosed]
+  by_cases h : a = c
+  · subst h; constructor <;> simp
+  · constructor <;> simp [h]
+
 end Geo.Proofs.C07
